@@ -118,6 +118,32 @@ def check_build_manifest(db, chk):
         chk.ob(R, "datareplacement:prune-args", "replacements" in f1 and "replacements" in f2 and reads_fields,
                "prune is applied to the fragments named by the replacements and to the replaced data files' fields", f.loc(pt["ln"]))
         chk.ob(R, "datareplacement:prune-on-final-indices", ("arg", 3) in o0, "prune operates on the index list that is returned (current_indices)", f.loc(pt["ln"]))
+        # every replaced fragment is handed to the prune: the list it receives is filled by a push on EVERY way through the
+        # per-replacement loop (a replacement that only adds a file for a so-far all-NULL column changes the column's values in
+        # that fragment just the same: an index built on the NULLs no longer describes it)
+        pushes = sorted({x[2] for x in o1 if x[0] == "mutated-by" and (x[1] or "").endswith("::push")})
+        cands = [b for b, t in c.calls() if b in reach and name_of(t).endswith("::next") and pushes and all(c.dominates(b, pb) for pb in pushes)]
+
+        def in_loop(h, x):
+            # x lies in the loop headed by h: it gets back to h without going through the head of an enclosing loop
+            return h in c.reachable_from([x], avoid=[h2 for h2 in cands if h2 != h and c.dominates(h2, h)])
+        heads = [b for b in cands if all(in_loop(b, pb) for pb in pushes)]
+        inner = [h for h in heads if all(c.dominates(o_, h) for o_ in heads)]
+        skipped = None
+        if pushes and inner:
+            h = inner[0]
+            some = None
+            for sb in sorted(reach):
+                si = c.switch_info(sb)
+                if si and si["kind"] == "enum" and (si["adt"] or "").endswith("option::Option") and "Some" in si["label_to"] and c.dominates(h, sb) and \
+                        si["place"] and si["place"][0] == (c.blocks[h]["term"].get("dest") or [None])[0]:
+                    some = si["label_to"]["Some"]
+                    break
+            if some is not None:
+                skipped = h in c.reachable_from([some], include_start=True, avoid=pushes)
+        chk.ob(R, "datareplacement:every-replaced-fragment-pruned", skipped is False,
+               "the list given to the prune is filled on every way through the per-replacement loop (pushes at blocks %s; an iteration can "
+               "finish without one: %s)" % (pushes, skipped), f.loc(pt["ln"]))
     # ---- Rewrite arm
     sws, ef = arm_region(c, "Rewrite")
     reach = c.reachable_from([0], include_start=True, edge_filter=ef)
